@@ -1,6 +1,7 @@
 package rules
 
 import (
+	"go/ast"
 	"fmt"
 	"go/constant"
 	"go/token"
@@ -71,10 +72,20 @@ func checkC17(c *Ctx) {
 				continue
 			}
 			guidFile[w] = true
-			wl, _ := c.wireLeaves(w, false)
+			wl, whyW := c.wireLeaves(w, false)
+			if len(wl) == 0 {
+				// no stream parameter: the bytes the function returns
+				if bl, okB := c.bytesLeaves(w); okB {
+					wl, whyW = bl, ""
+				}
+			}
+			if len(wl) == 0 {
+				c.R.Infof("G6.pair", name(w), "GUID->bytes", c.Pos(w.Pos()), "not decided for this shape: the encoded bytes are not built by a modelled idiom ("+whyW+")")
+				continue
+			}
 			ok := len(wl) == 4
 			for k, l := range wl {
-				if k < 4 && (l.width != wantR[k].width || l.order != "BE" && !(l.order == "-" && k == 3) || !strings.HasSuffix(l.id, "."+wantR[k].name)) {
+				if k < 4 && (l.width != wantR[k].width || l.order != "BE" && !(l.width == 8 && k == 3) || !strings.HasSuffix(l.id, "."+wantR[k].name)) {
 					ok = false
 				}
 			}
@@ -85,9 +96,16 @@ func checkC17(c *Ctx) {
 		guidFile[fn] = true
 		// text -> hex decode (dashes removed) -> BytesToGUID
 		ok := false
+		dv := c.deepViewOf(fn, 3)
+		dv.stopAt = map[string]bool{utilPkg + ".BytesToGUID": true}
 		for _, r := range ir.Returns(fn) {
-			sl := c.Slicer().Slice(r.Results[0])
-			if len(ir.CallsIn(sl, utilPkg+".BytesToGUID")) > 0 && len(ir.CallsIn(sl, "encoding/hex.DecodeString")) > 0 && sl[fn.Params[0]] {
+			res := dv.resolve(r.Results[0], dv.root)
+			call, isCall := res.v.(*ssa.Call)
+			if !isCall || ir.CallID(call) != utilPkg+".BytesToGUID" {
+				continue
+			}
+			sl := dv.sliceDeep(call.Call.Args[0], res.fr)
+			if len(ir.CallsIn(sl, "encoding/hex.DecodeString", "encoding/hex.Decode")) > 0 && sl[fn.Params[0]] {
 				ok = true
 			}
 		}
@@ -97,6 +115,31 @@ func checkC17(c *Ctx) {
 		// the text family itself may use the text-order bytes
 		if fn := c.FnOpt(spec); fn != nil {
 			guidFile[fn] = true
+		}
+	}
+	// helpers that only the text-order family calls belong to it
+	for changed := true; changed; {
+		changed = false
+		for _, fn := range c.P.LibFunctions() {
+			if guidFile[fn] || fn.Parent() != nil {
+				continue
+			}
+			n, all := 0, true
+			if node := c.P.CallGraph().Nodes[fn]; node != nil {
+				for _, in := range node.In {
+					if !c.P.InLib(in.Caller.Func) {
+						continue
+					}
+					n++
+					if !guidFile[in.Caller.Func] {
+						all = false
+					}
+				}
+			}
+			if n > 0 && all && !ast.IsExported(fn.Name()) {
+				guidFile[fn] = true
+				changed = true
+			}
 		}
 	}
 	// ---- G7: GUIDs inside encoded structures are little endian
@@ -173,6 +216,10 @@ func checkC17(c *Ctx) {
 					if !ok || (cmp.Op != token.EQL && cmp.Op != token.NEQ) || ce.Truth != (cmp.Op == token.EQL) {
 						return false
 					}
+					// equality of the whole structs compares every field
+					if ir.NamedTypeID(cmp.X.Type()) == utilPkg+".EFIGUID" && ir.NamedTypeID(cmp.Y.Type()) == utilPkg+".EFIGUID" {
+						return ir.AccessPath(cmp.X) != ir.AccessPath(cmp.Y)
+					}
 					fx, fy := ir.FieldID(cmp.X), ir.FieldID(cmp.Y)
 					if fx != utilPkg+".EFIGUID."+f || fy != fx {
 						return false
@@ -241,6 +288,15 @@ func (c *Ctx) ruleUTF16() {
 	little, okL := c.constBoolInt("golang.org/x/text/encoding/unicode", "LittleEndian")
 	usesLE := func(fn *ssa.Function) (bool, string) {
 		found, det := false, "no call of unicode.UTF16"
+		// the function and the library helpers in its view
+		var scope []*ssa.Function
+		inScope := map[*ssa.Function]bool{}
+		for _, fr := range c.deepViewOf(fn, 3).framesInOrder() {
+			if !inScope[fr.fn] {
+				inScope[fr.fn] = true
+				scope = append(scope, fr.fn)
+			}
+		}
 		judge := func(call *ssa.Call) {
 			k, isK := evalConstBoolInt(call.Call.Args[0])
 			if okL && isK && k == little {
@@ -250,6 +306,12 @@ func (c *Ctx) ruleUTF16() {
 			}
 		}
 		for _, f := range withAnon(fn) {
+			if !inScope[f] {
+				inScope[f] = true
+				scope = append(scope, f)
+			}
+		}
+		for _, f := range scope {
 			instrsOf(f, func(i ssa.Instruction) {
 				if call, ok := i.(*ssa.Call); ok && ir.CallID(call) == "golang.org/x/text/encoding/unicode.UTF16" {
 					judge(call)
@@ -281,40 +343,65 @@ func (c *Ctx) ruleUTF16() {
 		return found, det
 	}
 	if fn := c.Fn("A-u.utf16", "efi/util.MarshalUtf16Var"); fn != nil {
-		ok, det := usesLE(fn)
-		// writes through the transform writer: first the string, then exactly one "\x00"
-		var writes []*ssa.Call
-		instrsOf(fn, func(i ssa.Instruction) {
-			if call, isC := i.(*ssa.Call); isC && ir.CallID(call) == "golang.org/x/text/transform.Writer.Write" {
-				writes = append(writes, call)
+		dv := c.deepViewOf(fn, 3)
+		what := "strings are encoded through the UTF-16LE encoder followed by exactly one NUL terminator"
+		stdEncode := dv.callsTo("unicode/utf16.Encode")
+		if len(stdEncode) > 0 && len(dv.callsTo("golang.org/x/text/encoding/unicode.UTF16")) == 0 {
+			c.judgeStdUTF16Encode(fn, dv, stdEncode[0], what)
+		} else {
+			ok, det := usesLE(fn)
+			// writes through the transform writer (in the function or in a helper that is
+			// handed the writer): first the string, then exactly one "\x00"
+			type twrite struct {
+				di   dinstr
+				data ssa.Value
 			}
-		})
-		if ok {
-			switch {
-			case len(writes) != 2:
-				ok, det = false, fmt.Sprintf("%d writes through the UTF-16 encoder, want the string and one terminator", len(writes))
-			default:
-				s0 := c.Slicer().Slice(writes[0].Call.Args[1])
-				if !s0[fn.Params[0]] {
-					ok, det = false, "the first write is not the string parameter"
+			var writes []twrite
+			for _, di := range dv.order {
+				call, isC := di.i.(*ssa.Call)
+				if !isC {
+					continue
 				}
-				if !constBytesEqual(writes[1].Call.Args[1], "\x00") {
-					ok, det = false, "the second write is not the single NUL terminator"
+				var recv, data ssa.Value
+				switch {
+				case ir.CallID(call) == "golang.org/x/text/transform.Writer.Write":
+					recv, data = call.Call.Args[0], call.Call.Args[1]
+				case call.Call.IsInvoke() && call.Call.Method.Name() == "Write" && len(call.Call.Args) == 1:
+					recv, data = call.Call.Value, call.Call.Args[0]
+				default:
+					continue
 				}
-				if !precedesInCFG(fn, writes[0], writes[1]) {
-					ok, det = false, "the terminator is not written after the string"
+				if nw, isNW := dv.resolveAll(recv, di.fr).v.(*ssa.Call); isNW && ir.CallID(nw) == "golang.org/x/text/transform.NewWriter" {
+					writes = append(writes, twrite{di, data})
 				}
 			}
+			if ok {
+				switch {
+				case len(writes) != 2:
+					ok, det = false, fmt.Sprintf("%d writes through the UTF-16 encoder, want the string and one terminator", len(writes))
+				default:
+					if !dv.sliceDeep(writes[0].data, writes[0].di.fr)[fn.Params[0]] {
+						ok, det = false, "the first write is not the string parameter"
+					}
+					if !constBytesEqual(writes[1].data, "\x00") {
+						ok, det = false, "the second write is not the single NUL terminator"
+					}
+					w0, w1 := writes[0].di, writes[1].di
+					if w0.fr == w1.fr && !precedesInCFG(w0.fr.fn, w0.i, w1.i) || w0.fr != w1.fr && w0.seq > w1.seq {
+						ok, det = false, "the terminator is not written after the string"
+					}
+				}
+			}
+			// the result is the buffer the encoder writes into, nothing appended by hand
+			if ok {
+				for _, r := range ir.Returns(fn) {
+					if call, isC := dv.resolve(r.Results[0], dv.root).v.(*ssa.Call); !isC || ir.CallID(call) != "bytes.Buffer.Bytes" {
+						ok, det = false, "the result is not the encoder's output buffer"
+					}
+				}
+			}
+			c.R.Check(ok, "A-u.utf16", name(fn), "encode", c.Pos(fn.Pos()), what, det)
 		}
-		// the result is the buffer the encoder writes into, nothing appended by hand
-		if ok {
-			for _, r := range ir.Returns(fn) {
-				if call, isC := r.Results[0].(*ssa.Call); !isC || ir.CallID(call) != "bytes.Buffer.Bytes" {
-					ok, det = false, "the result is not the encoder's output buffer"
-				}
-			}
-		}
-		c.R.Check(ok, "A-u.utf16", name(fn), "encode", c.Pos(fn.Pos()), "strings are encoded through the UTF-16LE encoder followed by exactly one NUL terminator", det)
 	}
 	if fn := c.Fn("A-u.utf16", "efi/util.ParseUtf16Var"); fn != nil {
 		ok, det := usesLE(fn)
@@ -368,53 +455,80 @@ func (c *Ctx) ruleUTF16() {
 			}}})
 	}
 	if fn := c.Fn("A-u.utf16", "efi/util.ReadNullString"); fn != nil {
-		// every append feeding the result takes its data from the buffer handed to Read
-		ok, det, n := true, "", 0
-		var readBufs []ssa.Value
-		instrsOf(fn, func(i ssa.Instruction) {
-			if call, isC := i.(ssa.CallInstruction); isC && call.Common().IsInvoke() && call.Common().Method.Name() == "Read" {
-				readBufs = append(readBufs, call.Common().Args[0])
+		// every append feeding the result takes its data from the buffer handed to
+		// Read on the input (in the function or in the helper that does the read)
+		dv := c.deepViewOf(fn, 3)
+		dv.throughFields = true
+		var stream *ssa.Parameter
+		for _, p := range fn.Params {
+			if isStreamType(p.Type()) {
+				stream = p
 			}
-		})
-		instrsOf(fn, func(i ssa.Instruction) {
-			call, isC := i.(*ssa.Call)
-			if !isC || ir.CallID(call) != "builtin.append" || len(call.Call.Args) != 2 {
-				return
+		}
+		ok, det, n := true, "", 0
+		var readBufs []dval
+		for _, di := range dv.order {
+			call, isC := di.i.(ssa.CallInstruction)
+			if !isC {
+				continue
+			}
+			var src, buf ssa.Value
+			switch id := ir.CallID(call); {
+			case call.Common().IsInvoke() && call.Common().Method.Name() == "Read":
+				src, buf = call.Common().Value, call.Common().Args[0]
+			case id == "io.ReadFull" || id == "io.ReadAtLeast":
+				src, buf = call.Common().Args[0], call.Common().Args[1]
+			default:
+				continue
+			}
+			if r := dv.objectOf(src, di.fr); stream != nil && r.fr == dv.root && r.v == ssa.Value(stream) {
+				readBufs = append(readBufs, dv.objectOf(buf, di.fr))
+			}
+		}
+		for _, di := range dv.order {
+			call, isC := di.i.(*ssa.Call)
+			if !isC || ir.CallID(call) != "builtin.append" || len(call.Call.Args) != 2 || !isByteSlice(call.Type()) {
+				continue
 			}
 			n++
-			src := call.Call.Args[1]
+			src := dv.objectOf(call.Call.Args[1], di.fr)
 			fromRead := false
 			for _, b := range readBufs {
-				if src == b || ir.RootOf(src) == ir.RootOf(b) {
+				if src.same(b) || ir.RootOf(src.v) == ir.RootOf(b.v) && src.fr == b.fr {
 					fromRead = true
 				}
 			}
 			if !fromRead {
 				ok, det = false, "append at "+c.IPos(call)+" adds bytes that were not read from the input (a synthesised terminator makes the decoder's terminator check vacuous)"
 			}
-		})
+		}
 		if len(readBufs) == 0 || n == 0 {
 			ok, det = false, "no Read/append pair found"
 		}
 		// the scan is on 2-byte code units: the buffer handed to Read has length 2
 		for _, b := range readBufs {
-			if mk := findMake(b); mk != nil {
+			if mk, isMk := b.v.(*ssa.MakeSlice); isMk {
+				if k, isK := ir.ConstInt(mk.Len); !isK || k != 2 {
+					ok, det = false, "the terminator scan does not read 2-byte code units"
+				}
+			} else if mk := findMake(b.v); mk != nil {
 				if k, isK := ir.ConstInt(mk.Len); !isK || k != 2 {
 					ok, det = false, "the terminator scan does not read 2-byte code units"
 				}
 			}
 		}
+		dv.throughFields = false
 		c.R.Check(ok, "A-u.utf16", name(fn), "scan", c.Pos(fn.Pos()), "the terminator scan reads 2-byte code units and returns only bytes read from the input", det)
 	}
 	if fn := c.Fn("A-u.utf16", "efivar.(*Efistring).Unmarshal"); fn != nil {
 		ok := false
-		instrsOf(fn, func(i ssa.Instruction) {
-			if call, isC := i.(*ssa.Call); isC && ir.CallID(call) == utilPkg+".ParseUtf16Var" {
-				if len(ir.CallsIn(c.Slicer().Slice(call.Call.Args[0]), utilPkg+".ReadNullString")) > 0 {
-					ok = true
-				}
+		dv := c.deepViewOf(fn, 3)
+		for _, di := range dv.callsTo(utilPkg + ".ParseUtf16Var") {
+			call := di.i.(*ssa.Call)
+			if len(ir.CallsIn(dv.sliceDeep(call.Call.Args[0], di.fr), utilPkg+".ReadNullString")) > 0 {
+				ok = true
 			}
-		})
+		}
 		c.R.Check(ok, "A-u.utf16", name(fn), "string-variable", c.Pos(fn.Pos()), "string variables are decoded by the terminator scan followed by the checked UTF-16 decoder", "ParseUtf16Var(ReadNullString(..)) not found")
 	}
 }
@@ -741,4 +855,96 @@ func (c *Ctx) constBoolInt(pkgPath, nm string) (int64, bool) {
 		return 0, true
 	}
 	return c.constInt(pkgPath, nm)
+}
+
+// judgeStdUTF16Encode: the encoder written with unicode/utf16.Encode and explicit
+// little-endian packing of each code unit, followed by one zero unit.
+func (c *Ctx) judgeStdUTF16Encode(fn *ssa.Function, dv *deepView, enc dinstr, what string) {
+	undecided := func(why string) {
+		c.R.Infof("A-u.utf16", name(fn), "encode", c.Pos(fn.Pos()), "not decided for this shape: "+why)
+	}
+	encCall := enc.i.(*ssa.Call)
+	if !dv.sliceDeep(encCall.Call.Args[0], enc.fr)[fn.Params[0]] {
+		c.R.Violf("A-u.utf16", name(fn), "encode", c.IPos(encCall), what, "utf16.Encode is not applied to the string parameter")
+		return
+	}
+	rets := ir.Returns(fn)
+	if len(rets) != 1 {
+		undecided("several returns")
+		return
+	}
+	last, isC := dv.resolve(rets[0].Results[0], dv.root).v.(*ssa.Call)
+	if !isC {
+		undecided("the result is not the value of an AppendUint16 call")
+		return
+	}
+	w, order, put, isU := uintCallWidth(ir.CallID(last))
+	if !isU || !put || w != 2 || !strings.Contains(ir.CallID(last), "AppendUint") {
+		undecided("the result is not the value of an AppendUint16 call")
+		return
+	}
+	args := ir.CallArgs(last)
+	if k, isK := ir.ConstInt(args[len(args)-1]); !isK || k != 0 || order != "LE" {
+		c.R.Violf("A-u.utf16", name(fn), "encode", c.IPos(last), what, "the last code unit appended is not the little-endian NUL terminator")
+		return
+	}
+	// everything before the terminator: an empty buffer extended, in a loop, by the
+	// little-endian bytes of the encoder's code units
+	seen := map[ssa.Value]bool{}
+	units := 0
+	var walk func(v ssa.Value) string
+	walk = func(v ssa.Value) string {
+		if seen[v] {
+			return ""
+		}
+		seen[v] = true
+		switch x := v.(type) {
+		case *ssa.Phi:
+			for _, e := range x.Edges {
+				if why := walk(e); why != "" {
+					return why
+				}
+			}
+			return ""
+		case *ssa.MakeSlice:
+			if k, isK := ir.ConstInt(x.Len); isK && k == 0 {
+				return ""
+			}
+			return "?the buffer does not start empty"
+		case *ssa.Slice:
+			if h, isK := ir.ConstInt(x.High); x.High != nil && isK && h == 0 {
+				return ""
+			}
+			return "?a re-sliced buffer"
+		case *ssa.Const:
+			if x.Value == nil {
+				return ""
+			}
+		case *ssa.Call:
+			w, order, put, isU := uintCallWidth(ir.CallID(x))
+			if isU && put && strings.Contains(ir.CallID(x), "AppendUint") {
+				if w != 2 || order != "LE" {
+					return "a code unit is not appended as two little-endian bytes"
+				}
+				a := ir.CallArgs(x)
+				if !dv.sliceDeep(a[len(a)-1], dv.root)[encCall] {
+					return "a unit that does not come from utf16.Encode is appended"
+				}
+				units++
+				return walk(a[len(a)-2])
+			}
+		}
+		return "?the buffer is built by an idiom that is not evaluated (" + v.String() + ")"
+	}
+	why := walk(args[len(args)-2])
+	switch {
+	case strings.HasPrefix(why, "?"):
+		undecided(strings.TrimPrefix(why, "?"))
+	case why != "":
+		c.R.Violf("A-u.utf16", name(fn), "encode", c.Pos(fn.Pos()), what, why)
+	case units == 0:
+		c.R.Violf("A-u.utf16", name(fn), "encode", c.Pos(fn.Pos()), what, "no code unit of the string is appended")
+	default:
+		c.R.Okf("A-u.utf16", name(fn), "encode", c.Pos(fn.Pos()), what)
+	}
 }
